@@ -25,6 +25,7 @@ type c02 struct {
 	argLists    [][]stick.Value
 	nFilterCase int
 	handN       int
+	hand        []string
 }
 
 func init() { fw.Register("C02", func() fw.Property { return &c02{} }) }
@@ -63,7 +64,17 @@ func (p *c02) Init(tier string, seed int64) {
 		{"\\"}, {"Y-m-d\\"}, {"D, d M Y H:i:s \\a\\t"}, {"jS F y"}, {"%"}, {"%s %d %"}, {strings.Repeat("x", 300)}, {"é"}, {"\xff"}, {-1, -1}, {1 << 40}, {0.5, 0.5},
 		{map[string]stick.Value(nil)}, {[]stick.Value(nil)}, {(*int)(nil)}, {gen.ValStringer{S: "s"}}, {[]string{"a", "b"}, "x"}, {"", ""}, {" ", 2}}
 	p.nFilterCase = len(p.filters) * len(p.zoo)
-	p.handN = len(c02Hand)
+	// every context variable looked up with every awkward key, in every way a template can
+	p.hand = append([]string{}, c02Hand...)
+	for _, v := range c02Vars() {
+		for _, k := range gen.HostileStrs {
+			if strings.ContainsAny(k, "'\\") {
+				continue
+			}
+			p.hand = append(p.hand, fmt.Sprintf("{{ %s['%s'] }}{{ '%s' in %s }}{%% for x in %s['%s'] %%}.{%% endfor %%}{{ %s['%s'] is defined }}{%% set y = %s[('%s')] ~ 1 %%}", v, k, k, v, v, k, v, k, v, k))
+		}
+	}
+	p.handN = len(p.hand)
 }
 
 func (p *c02) N() int { return p.handN + p.nFilterCase + p.nProg }
@@ -125,7 +136,7 @@ func (p *c02) program(i int) (map[string]*gen.Template, bool) {
 func (p *c02) Describe(i int) interface{} {
 	switch {
 	case i < p.handN:
-		return map[string]interface{}{"kind": "hand-written", "template": c02Hand[i], "envs": "core and twig"}
+		return map[string]interface{}{"kind": "hand-written", "template": p.hand[i], "envs": "core and twig"}
 	case i < p.handN+p.nFilterCase:
 		j := i - p.handN
 		return map[string]interface{}{"kind": "builtin-filter", "filter": p.filters[j/len(p.zoo)], "value": p.zoo[j%len(p.zoo)].Label, "arg_lists": len(p.argLists)}
@@ -159,7 +170,7 @@ func (p *c02) Run(i int) (res fw.Result) {
 	var kinds map[string]int64
 	switch {
 	case i < p.handN:
-		src := c02Hand[i]
+		src := p.hand[i]
 		for _, tw := range []bool{false, true} {
 			var env *stick.Env
 			if tw {
@@ -259,7 +270,7 @@ func okOrErr(err error) string {
 }
 
 func (p *c02) Rule() string {
-	return "cases: (1) hand-written templates for every situation the statement names (zero divisors, descending/fractional/NaN ranges, 'for..if' with false conditions, hashes indexed by number/null/array, wrong-typed/nil/missing method arguments, nil func fields, unexported fields, empty and pointer inputs to filters, missing templates, unknown callbacks), each in the core and the Twig environment; (2) every built-in Twig filter x the whole Go-value zoo x 21 argument lists, called directly and through {{ v|f }}, {{ v|f(a) }}, {{ v|f(a,b) }} and {% filter f %}; (3) seeded random programs from the hostile generator: every tag (if/elseif/else, for[/key][/if][/else], set, set-capture, filter, block, macro, import, from, include[/with][/only], embed, extends chains of 0..3 ancestors with parent() at every level and expression-named parents, use[/alias], do, verbatim, comments) and every operator over a 26-variable context holding the zoo's shapes. Oracle: Execute returns (output or error); a panic, a process death, an executor step budget (20M) or CPU budget overrun is a violation. Non-trivial = more than 3 executor steps; distinct = (set of node kinds the executor hook saw, error kind)."
+	return "cases: (0) every context variable (48, incl. maps keyed by defined types, defined scalars, embedded structs with a nil embedded pointer, structs with interface fields) looked up with every awkward key (NaN, Inf, 1e400, 0x1, -1, field names ...) through [], in, for, is defined and set; (1) hand-written templates for every situation the statement names (zero divisors, descending/fractional/NaN ranges, 'for..if' with false conditions, hashes indexed by number/null/array, wrong-typed/nil/missing method arguments, nil func fields, unexported fields, empty and pointer inputs to filters, missing templates, unknown callbacks), each in the core and the Twig environment; (2) every built-in Twig filter x the whole Go-value zoo x 21 argument lists, called directly and through {{ v|f }}, {{ v|f(a) }}, {{ v|f(a,b) }} and {% filter f %}; (3) seeded random programs from the hostile generator: every tag (if/elseif/else, for[/key][/if][/else], set, set-capture, filter, block, macro, import, from, include[/with][/only], embed, extends chains of 0..3 ancestors with parent() at every level and expression-named parents, use[/alias], do, verbatim, comments) and every operator over a 26-variable context holding the zoo's shapes. Oracle: Execute returns (output or error); a panic, a process death, an executor step budget (20M) or CPU budget overrun is a violation. Non-trivial = more than 3 executor steps; distinct = (set of node kinds the executor hook saw, error kind)."
 }
 
 func (p *c02) Assumptions() []string {
